@@ -4,7 +4,7 @@ API and through the direct operations on the current values), the key set, "no e
 agreement on feasibility, and the prefix-bake ledger (state after step k does not depend on later steps)."""
 from __future__ import annotations
 
-from .common import shard, run_cases, BASE_ASSUMPTIONS
+from .common import under_display_configs, shard, run_cases, BASE_ASSUMPTIONS
 
 ID = 'C08'
 LEVEL = 'exploration'
@@ -26,8 +26,8 @@ def required_buckets(tier):
 
 def plan(tier, seed):
     if tier == 'quick':
-        return shard('program', 320, 14) + shard('witness', 1, 1)
-    return shard('program', 9000, 40) + shard('witness', 1, 1)
+        return shard('program', 320, 14) + shard('witness', 1, 1) + under_display_configs(shard('program', 30, 2))
+    return shard('program', 9000, 40) + shard('witness', 1, 1) + under_display_configs(shard('program', 800, 8))
 
 
 def run_job(job):
